@@ -1,7 +1,7 @@
 """C01 -- SD DSL simulation equals the explicit-Euler solution: generator contracts (K2) for every element kind and the
 built-in time functions.  Spec expressions are written from the property statement:
 
-  stock      lambda model,t: INIT@t if t <= model.starttime else model.memoize(NAME, t-model.dt) + model.dt*(EQ@(t-model.dt))
+  stock      lambda model,t: INIT@t if t <= model.starttime else model.memoize(NAME, t-model.dt) + model.dt*(EQ@model.previous_time(t))
   flow       lambda model,t: max(0, EQ@t)
   converter  lambda model,t: EQ@t                        biflow likewise
   constant   lambda model,t: c
@@ -37,7 +37,9 @@ def element_cases(I):
             o = _mk(I, 'Stock', name='S', _equation=eq, model=ModelStub())
             o.fields['__initial_value'] = Sym(init, 'INIT')
             I.call_method(o, 'build_function_string', [])
-            want = "lambda model, t: INIT__%s if t <= model.starttime else model.memoize('S', t - model.dt) + model.dt * EQ__xt_model_dt" % ('num' if init in ('num', 'negnum') else 't')
+            # the equation is read at the PREVIOUS GRID TIME model.previous_time(t) = normalize(t - dt) (the raw float t - dt is
+            # off the grid for decimal dt: 0.3 - 0.1 < 0.2; the memo key of the stock itself is normalised inside memoize)
+            want = "lambda model, t: INIT__%s if t <= model.starttime else model.memoize('S', t - model.dt) + model.dt * EQ__xmodel_previous_time_t_" % ('num' if init in ('num', 'negnum') else 't')
             return o.fields['_function_string'], want
         out.append(('Stock.build_function_string[eq=%s,init=num]' % k, stock))
         out.append(('Stock.build_function_string[eq=%s,init=negnum]' % k, lambda k=k: stock(k, 'negnum')))
